@@ -23,8 +23,9 @@ from typing import Optional
 class ShortReadRaw(io.RawIOBase):
     """A raw byte stream that delivers at most ``chunks[i]`` bytes per read."""
 
-    def __init__(self, data: bytes, chunks: List[int]) -> None:
+    def __init__(self, data: bytes, chunks: List[int], name: str = "<stdin>") -> None:
         super().__init__()
+        self.name = name  # (as real raw files have; the buffered and text layers above pass it on)
         self.data = data
         self.pos = 0
         self.chunks = chunks or [1 << 30]
@@ -54,8 +55,9 @@ class CapturedText(io.StringIO):
     """An output text file whose content survives close().  Like a real text stream it has
     an encoding (the locale's, or PYTHONIOENCODING's) and refuses what that cannot encode."""
 
-    def __init__(self, encoding: str = "utf-8") -> None:
+    def __init__(self, encoding: str = "utf-8", name: str = "<stdout>") -> None:
         super().__init__()
+        self.name = name
         self.final: Optional[str] = None
         self.closed_by_cli = False
         self._enc = encoding
@@ -102,6 +104,17 @@ class _BinaryView:
     def __init__(self, owner: "CapturedText") -> None:
         self._owner = owner
 
+    @property
+    def name(self) -> str:
+        return self._owner.name
+
+    @property
+    def closed(self) -> bool:
+        return self._owner.closed
+
+    def close(self) -> None:
+        self._owner.close()
+
     def write(self, data: Any) -> int:
         return self._owner._write_bytes(bytes(data))
 
@@ -130,7 +143,7 @@ class FakeFS:
         if self.virtual is not None and name not in self.virtual:
             return self.real_open(name, mode, buffering, encoding, errors, *a, **k)
         if "w" in mode or "a" in mode or "+" in mode or "x" in mode:
-            out = CapturedText(encoding or self.out_encoding)
+            out = CapturedText(encoding or self.out_encoding, name)
             if errors:
                 out.reconfigure(errors=errors)
             if "b" in mode:
@@ -154,7 +167,7 @@ class FakeFS:
             return out
         if name not in self.files:
             raise FileNotFoundError(2, "No such file or directory", name)
-        raw = ShortReadRaw(self.files[name], self.chunks)
+        raw = ShortReadRaw(self.files[name], self.chunks, name)
         self.raws.append(raw)
         buf = io.BufferedReader(raw, buffer_size=16)
         if "b" in mode:
@@ -184,7 +197,7 @@ def run_cli(
     fs = FakeFS(files, chunks or [], out_encoding, virtual)
     raw_in = ShortReadRaw(stdin_bytes, chunks or [])
     stdin = io.TextIOWrapper(io.BufferedReader(raw_in, buffer_size=16), encoding="utf-8", errors=stdin_errors)
-    stdout, stderr = CapturedText(out_encoding), CapturedText("utf-8")
+    stdout, stderr = CapturedText(out_encoding, "<stdout>"), CapturedText("utf-8", "<stderr>")
     if tty:
         # the tool may ask whether it talks to a terminal
         stdout.isatty = lambda: True  # type: ignore[method-assign]
